@@ -383,6 +383,11 @@ bool Xml::Private::parseElement(Element& element)
     String string;
     if(!parseText(string))
       return false;
+    if(string.isEmpty())
+    { // the text starts right behind a comment: step over it instead of rewinding in front of it again
+      skipSpace();
+      continue;
+    }
     element.content.append(string);
   }
   if(!readToken())
